@@ -415,3 +415,60 @@ def run_pipeline(payload):
                 events.append({"ev": "reset", "raised": ""})
         res.append({"n": len(text), "events": events})
     return res
+
+
+def canon(c):
+    import json as _json
+    p = proj(c)
+    for k in ("id",):
+        p.pop(k, None)
+    return _json.dumps(p, sort_keys=True)
+
+
+def run_markup(payload):
+    """items: {markup, steps}: markup-mode extraction vs extraction of the cleaned text"""
+    from eyecite import clean_text, get_citations
+    from eyecite.models import FullCaseCitation, ReferenceCitation
+    from eyecite.utils import DISALLOWED_NAMES
+    disallowed = set(DISALLOWED_NAMES)
+
+    def valid(name):          # transcription of the name-validity rule (utils.is_valid_name)
+        return (isinstance(name, str) and len(name) > 2 and name[0].isupper() and not name.endswith(".")
+                and not name.isdigit() and name.lower() not in disallowed)
+    res = []
+    for it in payload["items"]:
+        o = {"markup": it["markup"], "steps": it["steps"], "raised": "", "plain_nonref": [], "markup_nonref": [],
+             "refs": [], "n": 0, "text": []}
+        try:
+            plain = clean_text(it["markup"], it["steps"])
+            o["n"] = len(plain)
+            o["text"] = _cp(plain)
+            a = get_citations(markup_text=it["markup"], clean_steps=it["steps"])
+            b = get_citations(plain)
+            o["markup_nonref"] = [canon(c) for c in a if not isinstance(c, ReferenceCitation)]
+            o["plain_nonref"] = [canon(c) for c in b if not isinstance(c, ReferenceCitation)]
+            for mode, cs in (("markup", a), ("plain", b)):
+                for k, c in enumerate(cs):
+                    if not isinstance(c, ReferenceCitation):
+                        continue
+                    s, e = c.span()
+                    span_text = plain[s:e] if 0 <= s <= e <= len(plain) else ""
+                    # witness: an earlier full case citation one of whose valid names occurs in the span text
+                    wit = {"full": 0, "name": [], "off": -1, "valid": False}
+                    for j, f in enumerate(cs):
+                        if not isinstance(f, FullCaseCitation) or f.span()[1] > s:
+                            continue
+                        for fld in ("plaintiff", "defendant", "resolved_case_name_short", "resolved_case_name"):
+                            nm = getattr(f.metadata, fld, None)
+                            if nm and valid(nm) and nm in span_text:
+                                wit = {"full": j + 1, "name": _cp(nm), "off": s + span_text.find(nm), "valid": True,
+                                       "full_e": f.span()[1]}
+                                break
+                        if wit["valid"]:
+                            break
+                    o["refs"].append({"mode": mode, "s": s, "e": e, "fs": c.full_span()[0], "fe": c.full_span()[1], "wit": wit,
+                                      "text": span_text})
+        except Exception as ex:  # noqa: BLE001
+            o["raised"] = f"{type(ex).__name__}: {ex}"[:300]
+        res.append(o)
+    return res
